@@ -8,7 +8,7 @@ def run(tier):
     names = ["plannest", "planortho"] + (["plans2", "deep3", "nestedortho"] if thorough else [])
     progs = en.curated(names=names)
     progs += en.curated(names=["plannest", "planortho"], payload="int")
-    progs += en.curated(names=["plannest"], bottom_up=True)
+    progs += en.curated(names=["plannest", "planortho"], bottom_up=True)
     progs += en.curated(names=["planortho"], manual=True)
     progs += en.curated(names=["planortho"], cxx="clang++", std="c++14", san="recover", asserts=False)
     classes = en.cls("STATUS", "PLANRESULT") | (en.cls("REQ", "PLANEDIT") if thorough else 0)
@@ -26,7 +26,8 @@ def run(tier):
         "from callbacks). Library-issued requests are identified from the attached logger. Safety (strict): each "
         "execution is justified by the first in-order task with active, succeeded origin; executed tasks are gone; "
         "marks never survive the step or the exit of their state. Liveness (unambiguous class): direct sub-state "
-        "success, head silent, no request from inside the region => first task per succeeded origin executed, or "
+        "success, head silent, no request from inside the region => every task of a succeeded origin executed (until a "
+        "cyclic task of that origin consumed the success), or "
         "planSucceeded when the attached plan is empty; direct sub-state failure => planFailed; default handlers "
         "propagate to the enclosing owner in the same step.")
     chk.assumptions = [
